@@ -163,7 +163,7 @@ void jacobi_helper(ParCSRMatrix* A, ParVector& x, ParVector& b, ParVector& tmp,
                 row_sum += A->off_proc->vals[j] * dist_x[col];
             }
 
-            if (fabs(diag) > zero_tol)
+            if (diag != 0.0)
             {
                 x[i] = ((1.0 - omega)*tmp[i]) + (omega*((b[i] - row_sum) / diag));
             }
